@@ -39,22 +39,27 @@ EXTENDS Naturals, Sequences, FiniteSets, TLC, Json
 
 CONSTANTS Pool,        \* entry points used by the public calls
           EntryOps,    \* subset of Pool on which `entry` (defn.compile()) is also exercised
+          FirstOps,    \* labels "<op>:<d>" allowed as first call ({} = any): selects families of histories
           MaxLen,      \* history length
           EmitHist
 
-Own == {"plain", "caller", "main0", "bad_type", "calls_bad", "ct_good", "ct_bad", "ct_many", "ct_expr", "closure", "first",
+Own == {"plain", "caller", "main0", "bad_type", "calls_bad", "ct_good", "ct_bad", "ct_many", "ct_intr", "ct_exit", "ct_expr", "closure", "first",
         "use_generic", "mono", "use_mono", "Pt", "Pt.norm1", "Pt.__new__", "use_struct",
-        "ov_int", "ov_float", "over", "use_over", "long_names", "loops", "n"}
+        "ov_int", "ov_float", "over", "use_over", "effects", "long_names", "loops", "n"}
 ASSUME Pool \subseteq Own /\ EntryOps \subseteq Pool
 
 Types    == {"Pt"}                      \* go to types_to_check_worklist
-Comptime == {"ct_good", "ct_bad", "ct_many"}       \* traced, body not examined by check()
+Comptime == {"ct_good", "ct_bad", "ct_many", "ct_intr", "ct_exit"}       \* traced, body not examined by check()
 \* definitions whose body check raises a GuppyError, with the diagnostic's title.  ct_expr evaluates
 \* `comptime(plain(1))`: calling a Guppy function from Python outside tracing is an error, whatever
 \* happened earlier in the session (no reference to `plain` is resolved by the engine)
 FailTitle == [bad_type |-> "Type mismatch", ct_expr |-> "Python error"]
 FailsCheck == DOMAIN FailTitle
-FailsTrace == {"ct_bad"}                \* IndexError raised by the Python body during tracing
+\* comptime functions whose Python body raises while being traced, with the exception's class.
+\* ct_intr / ct_exit raise a BaseException that is not an Exception (Ctrl-C, sys.exit) after
+\* side-effecting ops were traced; for the engine this is just another failed compile
+TraceFail == [ct_bad |-> "IndexError", ct_intr |-> "KeyboardInterrupt", ct_exit |-> "SystemExit"]
+FailsTrace == DOMAIN TraceFail
 NoArgs == {"main0"}
 
 Tab(f, x) == IF x \in DOMAIN f THEN f[x] ELSE <<>>
@@ -63,14 +68,16 @@ BodyRefs(x)  == Tab([caller |-> <<"plain">>, main0 |-> <<"caller">>, calls_bad |
                      use_generic |-> <<"first">>, use_mono |-> <<"mono">>,
                      use_struct |-> <<"Pt", "Pt.__new__", "Pt.norm1">>,
                      use_over |-> <<"over", "ov_int", "ov_float">>], x)
-TraceRefs(x) == Tab([ct_good |-> <<"plain">>, ct_bad |-> <<"plain">>, ct_many |-> <<"plain">>], x)
+TraceRefs(x) == Tab([ct_good |-> <<"plain">>, ct_bad |-> <<"plain">>, ct_many |-> <<"plain">>,
+                     ct_intr |-> <<"plain">>, ct_exit |-> <<"plain">>], x)
 \* (callee, instantiation tag) pairs compiled when x is lowered
 Calls(x) == Tab([caller |-> << <<"plain", 0>> >>, main0 |-> << <<"caller", 0>> >>,
                  use_generic |-> << <<"first", 0>> >>, use_mono |-> << <<"mono", 1>>, <<"mono", 2>> >>,
                  use_struct |-> << <<"Pt.__new__", 0>>, <<"Pt.norm1", 0>> >>,
                  use_over |-> << <<"ov_int", 0>>, <<"ov_float", 0>> >>,
                  ct_good |-> << <<"plain", 0>> >>, ct_bad |-> << <<"plain", 0>> >>,
-                 ct_many |-> << <<"plain", 0>> >>], x)
+                 ct_many |-> << <<"plain", 0>> >>, ct_intr |-> << <<"plain", 0>> >>,
+                 ct_exit |-> << <<"plain", 0>> >>], x)
 
 Ops == {<<"check", d>> : d \in Pool} \cup {<<"compile", d>> : d \in Pool} \cup {<<"entry", d>> : d \in EntryOps}
 
@@ -117,6 +124,7 @@ Names(f) == {x \in Own : f[x] # 0}
 \* ---- a public call starts: reset() -----------------------------------------------------
 Start(op, d) ==
     /\ pc = Idle /\ Len(hist) < MaxLen
+    /\ (hist # <<>> \/ FirstOps = {} \/ (op \o ":" \o d) \in FirstOps)
     /\ epoch' = epoch + 1
     /\ parsedAt' = Zero /\ checkedAt' = Zero /\ compiled' = <<>> /\ wl' = <<>> /\ twl' = <<>>
     /\ lowered' = Zero
@@ -196,7 +204,7 @@ CompileDef ==
        /\ staleRead' = (staleRead \/ checkedAt[x] # epoch)
        /\ lowered' = [lowered EXCEPT ![x] = @ + 1]
        /\ IF x \in FailsTrace
-          THEN Finish("raised:IndexError", <<>>)
+          THEN Finish("raised:" \o TraceFail[x], <<>>)
           ELSE /\ pc' = [pc EXCEPT !.work = Front(pc.work) \o fresh, !.done = pc.done \o fresh,
                                    !.reads = pc.reads \cup {rd}]
                /\ hist' = hist
